@@ -149,6 +149,13 @@ def run_impl(case, work, tag="src"):
         out["base"] = [[pid_of(case, p, idmap) for p in ev] for ev in evs]
         out["obs"] = {pid_of(case, p, idmap): c03.observe(p) for ev in evs for p in ev}
         d = filt_dict(case)
+        if len(d) >= 2:
+            # an earlier object of this process was constructed with the SAME entries in the opposite insertion order:
+            # nothing may be remembered per set of entries
+            try:
+                cls(src(), filters=dict(reversed(list(d.items()))), **sel_kw(case))
+            except Exception:
+                pass
         try:
             a = cls(src(), filters=d, **sel_kw(case))
             out["ctor"] = {"ok": [[pid_of(case, p, idmap) for p in ev] for ev in a.particle_objects_list()],
@@ -540,7 +547,10 @@ def _probe_cases(rng):
             for k, v in (("rapidity_cut", {"t": "int", "v": 0}), ("pseudorapidity_cut", {"t": "float", "v": (0.0).hex()}),
                          ("particle_status", {"t": "int", "v": 0}), ("spacetime_rapidity_cut", {"t": "int", "v": 0}),
                          ("no_such_filter", {"t": "bool", "v": False}), ("no_such_filter", {"t": "int", "v": 0}),
-                         ("no_such_filter", {"t": "none"}), ("charged", {"t": "bool", "v": False})):
+                         ("no_such_filter", {"t": "none"}), ("charged", {"t": "bool", "v": False}),
+                         ("multiplicity_cut", {"t": "tuple", "v": [{"t": "int", "v": 10}, {"t": "int", "v": 1}]}),
+                         ("multiplicity_cut", {"t": "tuple", "v": [{"t": "int", "v": 3}, {"t": "int", "v": 0}]}),
+                         ("pT_cut", {"t": "tuple", "v": [{"t": "float", "v": (8.0).hex()}, {"t": "float", "v": (0.25).hex()}]})):
                 if k in KEYS[cls] or k not in ALLKEYS:
                     yield dict(base, filters=[[k, v]])
                     if base["filters"] and base["filters"][0][0] != k:
